@@ -505,14 +505,22 @@ pub fn run_first_open(cfg: &RunCfg, _replay: Option<&[Step]>) -> crate::run::Run
             if n2.get() == k {
                 *l2.borrow_mut() = format!("{p:?}");
                 crate::world::copy_dir(&d2, &i2);
-                std::panic::panic_any(SimulatedCrash);
+                // a tick inside the migration runner fires from SQLite's commit hook, through
+                // which a panic does not travel: the image taken here is what a death at this
+                // instant leaves on disk, whatever the still-running call goes on to do
+                if !matches!(p, mdk_sqlite_storage::verif::Point::Open(l) if l.starts_with("migrate:")) {
+                    std::panic::panic_any(SimulatedCrash);
+                }
             }
         })));
         let res = std::panic::catch_unwind(std::panic::AssertUnwindSafe(|| open(&dir.join("db.sqlite")).map(|_| ())));
         mdk_sqlite_storage::verif::set_thread_hook(None);
         let label = label.borrow().clone();
-        if res.is_ok() {
+        if res.is_ok() && !label.contains("migrate:") {
             continue; // the open finished before tick k
+        }
+        if label.contains("migrate:") {
+            *out.probes.entry("crash_between_commits_of_the_migration_runner".into()).or_insert(0) += 1;
         }
         *out.faults.entry("crash".into()).or_insert(0) += 1;
         *out.probes.entry("crash_inside_constructor".into()).or_insert(0) += 1;
